@@ -126,7 +126,7 @@ def main(argv=None):
     res['failpoint_hits'] = probe.S.failpoint_hits
     res['required'] = list(getattr(mod, 'REQUIRED', []))
     with open(a.out, 'w') as f:
-        json.dump(res, f)
+        json.dump(res, f, default=lambda o: repr(o)[:400])
     return 0
 
 
